@@ -29,6 +29,7 @@ import (
 	roothash "github.com/oasisprotocol/oasis-core/go/roothash/api"
 	scheduler "github.com/oasisprotocol/oasis-core/go/scheduler/api"
 	staking "github.com/oasisprotocol/oasis-core/go/staking/api"
+	"github.com/oasisprotocol/oasis-core/go/upgrade/migrations"
 	vault "github.com/oasisprotocol/oasis-core/go/vault/api"
 )
 
@@ -58,6 +59,8 @@ type GenKnobs struct {
 	ThresholdEntity uint64 `json:"threshold_entity"`
 	ThresholdNode   uint64 `json:"threshold_node"`
 	BypassStake     bool   `json:"bypass_stake"`
+	// Legacy leaves the consensus feature version unset (pre-26.1 compatibility branches).
+	Legacy bool `json:"legacy,omitempty"`
 	// Per-entity escrow (index = entity); others get account balances only.
 	EntityEscrow   []uint64 `json:"entity_escrow"`
 	EntityBalance  []uint64 `json:"entity_balance"`
@@ -263,6 +266,7 @@ func BuildWorld(k GenKnobs) (*World, error) {
 				MaxEvidenceSize:   1024 * 1024,
 				MinGasPrice:       k.MinGasPrice,
 				GasCosts:          transaction.Costs{consensusGenesis.GasOpTxByte: 1},
+				FeatureVersion:    featureVersion(k),
 			},
 		},
 		Vault: &vault.Genesis{Parameters: vault.DefaultConsensusParameters},
@@ -432,4 +436,12 @@ func (w *World) NodeExpiration(nk *NodeKeys) uint64 {
 		return w.K.ShortExpiry
 	}
 	return 100_000
+}
+
+func featureVersion(k GenKnobs) *version.Version {
+	if k.Legacy {
+		return nil
+	}
+	v := migrations.Version261
+	return &v
 }
